@@ -288,7 +288,11 @@ func (a *ordA) analyzeFn(fn *ssa.Function) {
 		t := tainted[fam]
 		for _, s := range t.sites {
 			st := siteOf(s)
-			q := &PathQ{c: c, Fn: fn, CutIn: func(in ssa.Instruction) bool { return isSanitiser(in, fam) }}
+			// a path that skips the sorter because the slice has at most one element needs no sort
+			q := &PathQ{c: c, Fn: fn, CutIn: func(in ssa.Instruction) bool { return isSanitiser(in, fam) },
+				CutEdge: func(b *ssa.BasicBlock, si int) bool {
+					return atMostOneEdge(b, si, func(v ssa.Value) bool { return d.find(v) == fam })
+				}}
 			if _, found := q.Reach(Site{st.B, st.I + 1}, factUnknown, func(in ssa.Instruction) bool { return in == use }); found {
 				return true
 			}
@@ -1040,6 +1044,53 @@ func (a *ordA) injectiveOfIter(v ssa.Value, uniq map[ssa.Value]bool, blk *ssa.Ba
 				return a.injectiveOfIter(st.Val, uniq, blk, depth+1)
 			}
 		}
+	}
+	return false
+}
+
+// atMostOneEdge: taking successor si of b establishes len(v) ≤ 1 for a value v accepted by inFam.
+func atMostOneEdge(b *ssa.BasicBlock, si int, inFam func(ssa.Value) bool) bool {
+	iff, ok := b.Instrs[len(b.Instrs)-1].(*ssa.If)
+	if !ok {
+		return false
+	}
+	bo, ok := iff.Cond.(*ssa.BinOp)
+	if !ok {
+		return false
+	}
+	x, y, op := bo.X, bo.Y, bo.Op
+	if _, isLen := isLenCall(y); isLen { // k OP len(v)  →  len(v) OP' k
+		x, y = y, x
+		switch op {
+		case token.LSS:
+			op = token.GTR
+		case token.GTR:
+			op = token.LSS
+		case token.LEQ:
+			op = token.GEQ
+		case token.GEQ:
+			op = token.LEQ
+		}
+	}
+	v, isLen := isLenCall(x)
+	k, isK := constInt(y)
+	if !isLen || !isK || !inFam(v) {
+		return false
+	}
+	truth := si == 0 // the edge taken when the condition holds
+	switch op {
+	case token.GTR: // len > k
+		return !truth && k <= 1
+	case token.GEQ: // len >= k
+		return !truth && k <= 2
+	case token.LSS: // len < k
+		return truth && k <= 2
+	case token.LEQ: // len <= k
+		return truth && k <= 1
+	case token.EQL: // len == k
+		return truth && k <= 1
+	case token.NEQ:
+		return !truth && k <= 1
 	}
 	return false
 }
